@@ -167,12 +167,14 @@ class Rig:
             self.trace = trace = []
             self.shgs = {k: self._mk_shg(k) for k in SOURCES}
             shg = self.shgs[src]
-            p_ns = Parameter('ns', 10, 0, 1000)
+            p_ns = Parameter('ns', 1, 0, 8)
             fixed_gamma = bool(c.get('multi') and c['multi']['profile'])
             if fixed_gamma:
                 p_g = Parameter('gamma', w['xs']['p'], isfixed=True)
             else:
-                p_g = Parameter('gamma', w['lb'] + w['delta'], w['lb'] - 10, w['lb'] + 100)
+                # the minimiser stays where the PDF set has PDFs for the neighbouring grid values
+                p_g = Parameter('gamma', w['lb'] + 2.3 * w['delta'], w['lb'] + 1.2 * w['delta'],
+                                w['lb'] + (w['npts'] - 2.2) * w['delta'])
             self.p_g = p_g
             self.pmm = pmm = ParameterModelMapper(models=shg.source_list)
             pmm.map_param(p_ns)
@@ -519,7 +521,7 @@ CHAIN_DATA = {
     # (ra, dec, ang_err, x) per event, total number of events
     'A': ([(1.10, 0.25, 0.30, 3.0), (2.20, -0.10, 0.45, 5.0), (0.50, 0.60, 0.25, 7.0), (1.70, 0.05, 0.60, 1.5)], 20),
     'B': ([(1.30, 0.35, 0.40, 2.5), (1.90, -0.25, 0.35, 6.5), (0.90, 0.10, 0.50, 4.0), (2.40, -0.30, 0.30, 8.5)], 20),
-    'C': ([(1.00, 0.30, 0.35, 3.5), (2.00, -0.20, 0.30, 5.5), (0.70, 0.50, 0.55, 6.0), (1.50, 0.00, 0.40, 2.0),
+    'C': ([(1.05, 0.33, 0.35, 3.5), (2.05, -0.22, 0.30, 5.5), (0.70, 0.50, 0.55, 6.0), (1.50, 0.00, 0.40, 2.0),
            (2.60, -0.40, 0.45, 9.0), (0.30, 0.20, 0.65, 0.5)], 25),
 }
 CHAIN_SOURCES = {1: [(1.0, 0.3), (2.0, -0.2)], 2: [(1.4, 0.1), (2.3, -0.35)]}
@@ -570,7 +572,7 @@ class ChainRig:
         self.shgs = {k: mk_shg(k) for k in CHAIN_SOURCES}
         shg = self.shgs[src]
         self.pmm = pmm = ParameterModelMapper(models=shg.source_list)
-        pmm.map_param(Parameter('ns', 10, 0, 1000))
+        pmm.map_param(Parameter('ns', 1, 0, 8))
         # the minimiser stays where the PDF set has PDFs for the neighbouring grid values
         p_g = Parameter('gamma', w['lb'] + 2.3 * w['delta'], w['lb'] + 1.2 * w['delta'], w['lb'] + (w['npts'] - 2.2) * w['delta'])
         pmm.map_param(p_g, models=shg.source_list)
@@ -859,6 +861,13 @@ class Tracker:
             self.last_ok, self.last_failed, self.unknown_nsg = (op if op[0] == 'max' else op[1]), False, False
             if ob[1] != 'Ok':
                 ctx.count(op[0] + '-raises:' + ob[2])
+            if in_protocol and ob[1] == 'Err' and op != ('eval', 'out'):
+                # a legal parameter point in an initialised trial: the function must return numbers (a cascade that
+                # does not reach one of the PDFs fails here on fresh and on used objects alike)
+                what = 'evaluate' if op[0] == 'eval' else 'maximize'
+                self.viol(f'{name}.{what}', 'raises-in-initialised-trial',
+                          f'{what} at a legal parameter point in an initialised trial raised {ob[2]}', ob, None,
+                          f'{what} returns numbers for a legal point in an initialised trial')
             if in_protocol:
                 want = self.oracle.replay(c, self.cur_src, [('init', self.data), op])
                 if not same_obs(ob, want):
